@@ -38,10 +38,11 @@ ARG_KINDS = {
     "ind1": "NV", "ind2": "NV", "n_features": "N", "ar1": "NV", "ar2": "NV", "arr": "NV", "vec": "V", "val": "S",
     "rows": "NV", "cols": "NV", "values": "V", "target": "ZV", "unknown_dist": "S", "far_dist": "S",
     "probabilities": "V", "k": "S", "n_iters": "N", "indices": "NM", "weights": "M", "embedding": "M",
-    "current_init": "M", "n_original_samples": "N",
+    "current_init": "M", "n_original_samples": "N", "state": "WV",
+    "knn_indices": "ZM", "knn_dists": "M", "sigmas": "V", "rhos": "V", "return_dists": "B", "bipartite": "B",
 }
 LEAN_TYPES = {"S": "α", "V": "List α", "M": "List (List α)", "B": "Bool", "N": "Nat", "Z": "Int", "NV": "List Nat",
-              "BV": "List Bool", "NM": "List (List Nat)", "ZV": "List Int"}
+              "BV": "List Bool", "NM": "List (List Nat)", "ZV": "List Int", "W": "BitVec 64", "WV": "List (BitVec 64)", "ZM": "List (List Int)"}
 
 FN_ARG_KINDS = {
     "_finite_mean": {"values": "V"},
@@ -80,6 +81,14 @@ class Fn:
         self.consts = {}
         self.loops = []               # enclosing translated loops: dicts with 'brk' (name or None) and 'state'
         self.mutated = []             # argument arrays the function writes into (procedures return them)
+        self.ret_int_bits = None      # numba signature "i4(...)": the result is truncated to that many bits
+        for d in node.decorator_list:
+            if isinstance(d, ast.Call) and d.args and isinstance(d.args[0], ast.Constant) and isinstance(d.args[0].value, str):
+                sig = d.args[0].value.strip()
+                if sig.startswith("i4("):
+                    self.ret_int_bits = 32
+                elif sig.startswith("i8("):
+                    self.ret_int_bits = 64
         self.partial = any(isinstance(n, ast.Raise) for n in ast.walk(node))
 
     # ---------------------------------------------------------------- expressions
@@ -100,6 +109,8 @@ class Fn:
 
     def const(self, node, want=None):
         v = node.value
+        if v is None:
+            return "([] : List α)", "V"          # an absent optional output array
         if isinstance(v, bool):
             return ("true" if v else "false"), "B"
         if isinstance(v, int) and want in ("N", None):
@@ -122,6 +133,13 @@ class Fn:
                     return lit_scalar(v), "S"
                 raise Untranslatable(f"unknown variable {e.id}")
             return lname(e.id), env[e.id]
+        if isinstance(e, ast.Attribute) and e.attr == "size":
+            c, k = self.expr(e.value, env)
+            if k in ("M", "NM", "ZM"):
+                return f"(({c}).length * (({c}).getD 0 []).length)", "N"
+            if k in ("V", "NV", "ZV", "BV"):
+                return f"({c}).length", "N"
+            raise Untranslatable(".size of a non-array")
         if isinstance(e, ast.Attribute) and e.attr == "flat":
             c, k = self.expr(e.value, env)
             if k == "V":
@@ -189,12 +207,12 @@ class Fn:
         if (isinstance(e.value, ast.Attribute) and e.value.attr == "shape"
                 and isinstance(e.slice, ast.Constant) and e.slice.value == 0):
             c, k = self.expr(e.value.value, env)
-            if k in ("V", "NV", "BV", "M", "NM", "ZV"):
+            if k in ("V", "NV", "BV", "M", "NM", "ZV", "ZM"):
                 return f"({c}).length", "N"
         if (isinstance(e.value, ast.Attribute) and e.value.attr == "shape"
                 and isinstance(e.slice, ast.Constant) and e.slice.value == 1):
             c, k = self.expr(e.value.value, env)
-            if k in ("M", "NM"):
+            if k in ("M", "NM", "ZM"):
                 return f"(({c}).getD 0 []).length", "N"       # column count of a non-empty matrix
         # slices a[:n], a[1:], a[:-1]
         if isinstance(e.slice, ast.Slice) and e.slice.step is None:
@@ -235,6 +253,13 @@ class Fn:
             if k == "ZV":
                 i, ki = self.expr(e.slice, env, "N")
                 return f"({base}.getD {self.cast(i, ki, 'N')} 0)", "Z"
+            if k == "WV":
+                i, ki = self.expr(e.slice, env, "N")
+                return f"({base}.getD {self.cast(i, ki, 'N')} 0)", "W"
+            if k == "ZM" and isinstance(e.slice, ast.Tuple) and len(e.slice.elts) == 2:
+                i, ki = self.expr(e.slice.elts[0], env, "N")
+                j, kj = self.expr(e.slice.elts[1], env, "N")
+                return f"(({base}.getD {self.cast(i, ki, 'N')} []).getD {self.cast(j, kj, 'N')} 0)", "Z"
             if k == "NM" and isinstance(e.slice, ast.Tuple) and len(e.slice.elts) == 2:
                 i, ki = self.expr(e.slice.elts[0], env, "N")
                 j, kj = self.expr(e.slice.elts[1], env, "N")
@@ -258,6 +283,32 @@ class Fn:
             if ka == "V":
                 raise Untranslatable("vector power")
             return f"(T.pow {self.cast(a, ka, 'S')} {self.cast(b, kb, 'S')})", "S"
+        if isinstance(e.op, (ast.BitAnd, ast.BitOr)):
+            try:
+                a_, ka_ = self.expr(e.left, env)
+                b_, kb_ = self.expr(e.right, env)
+            except Untranslatable:
+                ka_ = kb_ = None
+            if ka_ == "B" and kb_ == "B":
+                return f"({a_} {'&&' if isinstance(e.op, ast.BitAnd) else '||'} {b_})", "B"
+        if isinstance(e.op, (ast.BitAnd, ast.BitXor, ast.BitOr, ast.LShift, ast.RShift)):
+            # int64 words (numba's i8): `>>` is the arithmetic shift
+            def word(x):
+                if isinstance(x, ast.Constant) and isinstance(x.value, int) and not isinstance(x.value, bool) and x.value >= 0:
+                    return f"{x.value}#64", "W"
+                return self.expr(x, env, "W")
+            a, ka = word(e.left)
+            if isinstance(e.op, (ast.LShift, ast.RShift)):
+                if not (isinstance(e.right, ast.Constant) and isinstance(e.right.value, int) and 0 <= e.right.value < 64):
+                    raise Untranslatable("shift by a non-literal amount")
+                if ka != "W":
+                    raise Untranslatable("shift of a non-word")
+                return (f"({a} <<< {e.right.value})" if isinstance(e.op, ast.LShift) else f"(({a}).sshiftRight {e.right.value})"), "W"
+            b, kb = word(e.right)
+            if ka != "W" or kb != "W":
+                raise Untranslatable("bit operation on non-words")
+            sym = {ast.BitAnd: "&&&", ast.BitXor: "^^^", ast.BitOr: "|||"}[type(e.op)]
+            return f"({a} {sym} {b})", "W"
         ops = {ast.Add: "+", ast.Sub: "-", ast.Mult: "*", ast.Div: "/"}
         if type(e.op) not in ops:
             raise Untranslatable("operator " + ast.dump(e.op))
@@ -320,6 +371,9 @@ class Fn:
             a, b = self.cast(a, ka, "Z"), self.cast(b, kb, "Z")
             t = {ast.Eq: "==", ast.NotEq: "!=", ast.Lt: "<", ast.LtE: "≤", ast.Gt: ">", ast.GtE: "≥"}[type(op)]
             return f"({a} {t} {b})" if t in ("==", "!=") else f"(decide ({a} {t} {b}))"
+        if ka == "B" and isinstance(r, ast.Constant) and isinstance(r.value, bool) and isinstance(op, (ast.Eq, ast.NotEq)):
+            neg = (r.value is False) == isinstance(op, ast.Eq)
+            return f"(!{a})" if neg else a
         if ka == "B" and kb == "B":
             if isinstance(op, ast.NotEq):
                 return f"(xor {a} {b})"
@@ -450,6 +504,8 @@ class Fn:
                     return f"(List.replicate {r} (List.replicate {c2} (0 : α)))", "M"
             c, k = self.expr(n, env, "N")
             if k == "N":
+                if any(kw.arg == "dtype" and ast.unparse(kw.value) in ("np.int32", "np.int64", "np.intp") for kw in e.keywords):
+                    return f"(List.replicate {c} (0 : Int))", "ZV"
                 return f"(List.replicate {c} (0 : α))", "V"
             raise Untranslatable("array constructor " + src)
         if f == "np.array" and len(args) == 1 and isinstance(args[0], ast.List):
@@ -583,6 +639,16 @@ class Fn:
                 raise Untranslatable("bare return in a function that mutates nothing")
             self.ret_kind = tuple(env[v] for v in self.mutated) if len(self.mutated) > 1 else env[self.mutated[0]]
             return pad + self.ret(self.tuple_of(self.mutated, env))
+        if isinstance(s, ast.Return) and self.ret_int_bits:
+            c, k = self.expr(s.value, env, "W")
+            if k != "W":
+                raise Untranslatable("integer-typed return of a non-word")
+            val = f"(({c}).truncate {self.ret_int_bits} : BitVec {self.ret_int_bits}).toInt"
+            if self.mutated:
+                self.ret_kind = ("Z",) + tuple(env[v] for v in self.mutated)
+                return pad + "(" + val + ", " + ", ".join(lname(v) for v in self.mutated) + ")"
+            self.ret_kind = "Z"
+            return pad + val
         if isinstance(s, ast.Return):
             c, k = self.expr(s.value, env, "S")
             if isinstance(k, str) and k in ("N", "B", "Z"):
@@ -612,6 +678,18 @@ class Fn:
                 c, k = self.expr(s.value, env, "S")
                 a = lname(t.value.id)
                 return pad + f"let {a} := {a}.set {self.cast(i, ki, 'N')} {self.cast(c, k, 'S')}\n" + self.block(rest, env, ind, tail)
+            if isinstance(t, ast.Subscript) and isinstance(t.value, ast.Name) and env.get(t.value.id) == "ZV":
+                i, ki = self.expr(t.slice, env, "N")
+                c, k = self.expr(s.value, env, "N")
+                a = lname(t.value.id)
+                return pad + f"let {a} := {a}.set {self.cast(i, ki, 'N')} {self.cast(c, k, 'Z')}\n" + self.block(rest, env, ind, tail)
+            if isinstance(t, ast.Subscript) and isinstance(t.value, ast.Name) and env.get(t.value.id) == "WV":
+                i, ki = self.expr(t.slice, env, "N")
+                c, k = self.expr(s.value, env, "W")
+                if k != "W":
+                    raise Untranslatable("store of a non-word into a word array")
+                a = lname(t.value.id)
+                return pad + f"let {a} := {a}.set {self.cast(i, ki, 'N')} {c}\n" + self.block(rest, env, ind, tail)
             if isinstance(t, ast.Subscript) and isinstance(t.value, ast.Name) and env.get(t.value.id) == "NV":
                 i, ki = self.expr(t.slice, env, "N")
                 c, k = self.expr(s.value, env, "N")
@@ -1042,11 +1120,15 @@ inductive Arg where
   | i : List Nat → Arg
   | im : List (List Nat) → Arg
   | z : List Int → Arg
+  | zm : List (List Int) → Arg
+  | b : Bool → Arg
 
 def fb (x : Float) : String := toString x.toBits.toNat
 def outS (x : Float) : List String := [fb x]
 def outSV (p : Float × List Float) : List String := fb p.1 :: p.2.map fb
 def outV (l : List Float) : List String := l.map fb
+def outZZVV (p : List Int × List Int × List Float × List Float) : List String :=
+  ("ints" :: p.1.map toString) ++ ("ints" :: p.2.1.map toString) ++ ("vals" :: p.2.2.1.map fb) ++ ("vals" :: p.2.2.2.map fb)
 def outM (m : List (List Float)) : List String := m.flatten.map fb
 def infF : Float := 1.0 / 0.0
 def outI (l : List Nat) : List String := "idx" :: l.map toString
@@ -1077,8 +1159,9 @@ def {fn} (name : String) (a : List Arg) : List String :=
 def run_table(known, mod="DistSrc", ns="Src", fn="run"):
     """Lean text of the dispatch table for the translated functions (`known` as built by translate_module)"""
     out = [RUN_PRELUDE.format(mod=mod, fn=fn)]
-    tag = {"S": "s", "V": "v", "M": "m", "N": "n", "NV": "i", "NM": "im", "ZV": "z"}
-    outs = {"S": "outS", ("S", "V"): "outSV", "NV": "outI", ("NV", "V"): "outIV", "V": "outV", "M": "outM"}
+    tag = {"S": "s", "V": "v", "M": "m", "N": "n", "NV": "i", "NM": "im", "ZV": "z", "ZM": "zm", "B": "b"}
+    outs = {"S": "outS", ("S", "V"): "outSV", "NV": "outI", ("NV", "V"): "outIV", "V": "outV", "M": "outM",
+            ("ZV", "ZV", "V", "V"): "outZZVV"}
     for name, (lean, akinds, rk, usesT, usesPi, partial, usesInf) in known.items():
         if any(k not in tag for k in akinds) or rk not in outs:
             continue
@@ -1119,7 +1202,7 @@ def regen_sparse_src(lean_dir, write_if_changed):
     return changed, rep
 
 
-UMAP_FUNCS = ["_finite_mean", "fast_intersection", "reprocess_row", "init_transform", "init_update"]
+UMAP_FUNCS = ["_finite_mean", "fast_intersection", "reprocess_row", "init_transform", "init_update", "compute_membership_strengths"]
 
 
 def regen_umap_src(lean_dir, write_if_changed):
@@ -1131,6 +1214,17 @@ def regen_umap_src(lean_dir, write_if_changed):
     ch |= write_if_changed(os.path.join(lean_dir, "Generated", "RunCommon.lean"), RUN_COMMON)
     ch |= write_if_changed(os.path.join(lean_dir, "Generated", "UmapSrcRun.lean"), run_table(meta, "UmapSrc", "SrcUmap", "runUmap"))
     return ch, rep
+
+
+UTILS_FUNCS = ["tau_rand_int"]
+
+
+def regen_utils_src(lean_dir, write_if_changed):
+    import os
+    import umap.utils as Ut
+    text, rep = translate_module(inspect.getsource(Ut), UTILS_FUNCS, "umap/utils.py", "SrcUtils", "C07Src.lean")
+    rep.pop("__meta__")
+    return write_if_changed(os.path.join(lean_dir, "Generated", "UtilsSrc.lean"), text), rep
 
 
 LAYOUT_FUNCS = ["clip", "rdist"]
